@@ -59,6 +59,42 @@ theorem C09_labels_of_table (task : Task) (lvl : Level) (t : List Row)
       simp only [List.map_cons, List.cons.injEq]
       exact ⟨h1.2, ih hm.2 ms ha'.2⟩
 
+private def labelOfFn (f : String) : String := match Metric.ofFn f with | some m => m.label | none => ""
+
+private theorem ofFn_fn' (m : Metric) : Metric.ofFn m.fn = some m := by cases m <;> decide
+
+/-- order-insensitive form of `C09_labels_of_table`: the labels the code attaches at a level are
+    the labels the model attaches, as a multiset -/
+theorem C09_labels_of_table_perm (task : Task) (lvl : Level) (t : List Row)
+    (ha : TableAgreesPerm task lvl t = true) (hm : TermMatchesFunction t = true) :
+    (t.map (·.termLabel)).Perm ((taskMetrics task lvl).map (·.label)) := by
+  unfold TableAgreesPerm at ha
+  rw [List.isPerm_iff] at ha
+  have h1 : t.map (·.termLabel) = (t.map (·.fn)).map labelOfFn := by
+    rw [List.map_map]
+    apply List.map_congr_left
+    intro r hr
+    unfold TermMatchesFunction at hm
+    rw [List.all_eq_true] at hm
+    have h := hm r hr
+    simp only [Function.comp, labelOfFn]
+    cases hf : Metric.ofFn r.fn with
+    | none => simp [hf] at h
+    | some m =>
+      simp only [hf, Bool.and_eq_true, beq_iff_eq] at h
+      exact h.2
+  have h2 : (taskMetrics task lvl).map (·.label) = ((taskMetrics task lvl).map (·.fn)).map labelOfFn := by
+    rw [List.map_map]
+    apply List.map_congr_left
+    intro m _
+    simp [Function.comp, labelOfFn, ofFn_fn']
+  rw [h1, h2]
+  exact ha.map _
+
+example : TableAgreesPerm .clipMultilabel .example
+    [⟨"soundevent_metrics:averagePrecision", "Average Precision", "average_precision"⟩,
+     ⟨"soundevent_metrics:jaccard", "Jaccard Index", "jaccard"⟩] = true := by decide
+
 /-- the model's own driver tables have pairwise distinct labels at every level of every task -/
 theorem C09_model_tables_distinct (task : Task) (lvl : Level) :
     ((taskMetrics task lvl).map (·.label)).Nodup := by
